@@ -59,9 +59,9 @@ def main():
         dest = None
         if m:
             dest = m.group(2)
-            dest = re.sub(r'^/tmp/seed2?/C\d\d/', '', dest).strip('/')
+            dest = re.sub(r'^/tmp/seed[23]?/C\d\d/', '', dest).strip('/')
         if not dest:
-            m2 = re.search(r'(?:into|in|to)\s+`?/tmp/seed2?/C\d\d/([\w/]+)', readme) or re.search(r'goes in\s+`?([\w/]+)/?`?', readme)
+            m2 = re.search(r'(?:into|in|to)\s+`?/tmp/seed[23]?/C\d\d/([\w/]+)', readme) or re.search(r'goes in\s+`?([\w/]+)/?`?', readme)
             dest = m2.group(1).strip('/') if m2 else None
         mrun = re.search(r"-run\s+'?\"?([\w^$|.]+)", cmd) or re.search(r"-run\s+'?\"?([\w^$|.]+)", readme)
         res['demo_dest'] = dest
